@@ -439,6 +439,69 @@ def r13_14(ctx, rep):
     run_as(r19_6, "R13.14", ctx, rep)
 
 
+@SPEC.rule(
+    "R13.15",
+    "a literal matrix attribute keeps CasADi's element order: variable_metadata_function casts attribute values with ca.DM(<value>) itself and "
+    "does not flatten, ravel or reshape them with numpy on the way — the rows of the metadata function follow the column-major order of "
+    "veccat(<symbols>), numpy flattens row-major, and start = {{1,2,3},{4,5,6}} would be reported for the wrong elements",
+)
+def r13_15(ctx, rep):
+    R = "R13.15"
+    fn = _metadata_fn(ctx, R)
+    site = MODEL + ":Model.variable_metadata_function"
+    probe = ast.parse("def f(value):\n    return ca.DM(np.asarray(value, dtype=float).ravel())\n").body[0]
+
+    def reorders(f):
+        return ["line %d: %s" % (c.lineno, norm(c)[:60]) for c in ast.walk(f) if isinstance(c, ast.Call) and (
+            (isinstance(c.func, ast.Attribute) and c.func.attr in ("ravel", "flatten", "reshape", "transpose", "tolist") and not (call_name(c) or "").startswith("ca."))
+            or (call_name(c) or "") in ("np.ravel", "np.reshape", "np.transpose", "numpy.ravel"))]
+
+    if not reorders(probe):
+        raise AnalysisError(R, "self-test of the reordering detector failed")
+    casts = [c for c in ast.walk(fn) if isinstance(c, ast.Call) and call_name(c) == "ca.DM"]
+    if not casts:
+        raise MechanismMissing(R, "the ca.DM(<attribute value>) cast was not found in variable_metadata_function")
+    hits = reorders(fn)
+    rep.ob(R, site, "attribute values are not re-ordered by numpy before they are stacked", not hits, "; ".join(hits[:3]))
+
+
+@SPEC.rule(
+    "R13.16",
+    "a substituted attribute keeps the variable's type: in Model._substitute_metadata a fixed conversion (`float(value)`) is applied only where "
+    "the value is known not to be regular (inf has no Integer representation); every regular value is converted with the variable's own "
+    "python_type — `min` and `max` of an Integer variable included",
+)
+def r13_16(ctx, rep):
+    from ..cfg import CFG, assume_truth, must_facts
+    R = "R13.16"
+    fn = ctx.func(MODEL, "Model._substitute_metadata", R)
+    site = MODEL + ":Model._substitute_metadata"
+    cfg = CFG(fn, R)
+    fixed, own = [], []
+    for x in cfg.stmts():
+        a = x.ast
+        if isinstance(a, ast.Assign) and isinstance(a.targets[0], ast.Name) and isinstance(a.value, ast.Call):
+            v = a.targets[0].id
+            if isinstance(a.value.func, ast.Name) and a.value.func.id in ("float", "int", "bool") and len(a.value.args) == 1 and is_name(a.value.args[0], v):
+                fixed.append((x, v))
+            if norm(a.value.func).endswith(".python_type"):
+                own.append(x)
+    if not fixed or not own:
+        raise MechanismMissing(R, "the conversions of substituted attribute values (python_type(...) / float(...)) were not found")
+    for x, v in fixed:
+        def transfer(node, facts, v=v):
+            if node.kind == "assume":
+                t = assume_truth(node, "%s.is_regular()" % v)
+                if t is False:
+                    return facts | {"irregular"}
+                if t is True:
+                    return facts - {"irregular"}
+            return facts
+        IN = must_facts(cfg, transfer)
+        rep.ob(R, site, "`%s` only for values that are not regular" % norm(x.ast), "irregular" in (IN.get(x.id) or frozenset()),
+               "the fixed conversion is reached by regular values as well: an Integer variable's substituted attribute becomes a float")
+
+
 # -- seeded variants ---------------------------------------------------------
 @SPEC.rule(
     "R13.7",
